@@ -316,6 +316,11 @@ class Result:
         return True
 
     def finish(self, level="proof", assumptions=None, checker_cmd=None):
+        if not self.violations and self.discharged < self.obligations:
+            # a proof / audit / correspondence obligation no longer checks and the search found no failing input
+            self.violations.append(({"property": self.prop, "broken": "proof or correspondence obligation no longer checks",
+                                     "failed_obligations": [n for n in self.notes if n.startswith("obligation failed")][:10],
+                                     "log": self.extra.get("broken_proof_log", "")}, False))
         wall = now() - self.t0
         os.makedirs(os.path.join(ROOT, "evidence"), exist_ok=True)
         cov = {
